@@ -637,7 +637,13 @@ func (v *StrictArray) MarshalBinary() (data []byte, err error) {
 		return nil, oe.Wrap(err, "marshal")
 	}
 
-	if err = binary.Write(b, binary.BigEndian, v.count); err != nil {
+	// The count on the wire is the number of elements: Set() does not maintain
+	// v.count, and the decoder reads exactly that many elements.
+	v.lock.Lock()
+	count := uint32(len(v.properties))
+	v.lock.Unlock()
+
+	if err = binary.Write(b, binary.BigEndian, count); err != nil {
 		return nil, oe.Wrap(err, "marshal")
 	}
 
